@@ -359,3 +359,65 @@ Fixpoint count_nl (s : string) (n : nat) : nat :=
   | S m, String c r => (if (byte_of c =? 10)%N then 1 else 0) + count_nl r m
   | _, _ => 0
   end.
+
+(* ---------- specification-level definitions for the lexer properties ---------- *)
+
+(* token spans tile the input: each starts where the previous one ended *)
+Fixpoint tiles (pos : nat) (l : list (tok * nat * nat)) : Prop :=
+  match l with
+  | [] => True
+  | (_, a, b) :: r => a = pos /\ pos <= b /\ tiles b r
+  end.
+
+Definition is_final (t : tok) : bool :=
+  match t with TEnd | TErr _ _ _ => true | _ => false end.
+
+Definition substring_of (s : string) (a b : nat) : string := str_take (b - a) (str_drop a s).
+
+Fixpoint no_ws (s : string) : bool :=
+  match s with
+  | "" => true
+  | String c r => negb (is_ws c) && no_ws r
+  end.
+
+(* value of a digit string in a radix (most significant digit first) *)
+Fixpoint digits_value (radix : Z) (ds : list N) (acc : Z) : Z :=
+  match ds with
+  | [] => acc
+  | d :: r => digits_value radix r (acc * radix + Z.of_N d)%Z
+  end.
+
+Definition is_nl (c : ascii) : bool := (byte_of c =? 10)%N || (byte_of c =? 13)%N.
+Definition is_cont (c : ascii) : bool := (128 <=? byte_of c)%N && (byte_of c <? 192)%N.
+
+(* number of '\n' among the first p bytes *)
+Fixpoint spec_line (s : string) (p : nat) : nat :=
+  match p, s with
+  | S q, String c r => (if (byte_of c =? 10)%N then 1 else 0) + spec_line r q
+  | _, _ => 0
+  end.
+
+(* one past the last line break strictly before byte p (0 if none) *)
+Fixpoint spec_line_start_go (s : string) (i p acc : nat) : nat :=
+  match s with
+  | "" => acc
+  | String c r => if (i <? p)%nat then spec_line_start_go r (S i) p (if is_nl c then S i else acc) else acc
+  end.
+Definition spec_line_start (s : string) (p : nat) : nat := spec_line_start_go s 0 p 0.
+
+(* the first line break at or after byte p (the length of the text if none) *)
+Fixpoint spec_line_end_go (s : string) (i p : nat) : nat :=
+  match s with
+  | "" => i
+  | String c r => if (p <=? i)%nat && is_nl c then i else spec_line_end_go r (S i) p
+  end.
+Definition spec_line_end (s : string) (p : nat) : nat := spec_line_end_go s 0 p.
+
+(* characters (bytes that are not UTF-8 continuation bytes) in [a, b) *)
+Fixpoint spec_chars_go (s : string) (i a b : nat) : nat :=
+  match s with
+  | "" => 0
+  | String c r =>
+    (if (a <=? i)%nat && (i <? b)%nat && negb (is_cont c) then 1 else 0) + spec_chars_go r (S i) a b
+  end.
+Definition spec_col (s : string) (p : nat) : nat := spec_chars_go s 0 (spec_line_start s p) p.
